@@ -14,7 +14,8 @@ s=open(p).read()
 n=s.count(old)
 if n==0:
     print("MUTATION TARGET NOT FOUND"); sys.exit(3)
-open(p,'w').write(s.replace(old,new,1))
+import os
+open(p,"w").write(s.replace(old,new) if os.environ.get("MUT_ALL") else s.replace(old,new,1))
 print(f"mutated {p}: {n} occurrence(s), first replaced")
 PY
 [ $? -eq 0 ] || exit 3
